@@ -206,15 +206,23 @@ def run_check(pid, tier):
                 e = dict(env)
                 cmd = ["go", "test", "-tags", "verif", "-vet=off", "-count=1"] + modfile_args(work) + ["-run", "^$", "-fuzz", "^%s$" % run["fuzz"],
                        "-fuzztime", "%ds" % run["fuzztime"], "-timeout", "%ds" % run["timeout"], "."]
-                log = open(os.path.join(work, "run%d-fuzz.log" % runix), "w")
-                pr = subprocess.Popen(cmd, cwd=os.path.join(HARNESS, cfg["pkg"]), env=e, stdout=log, stderr=subprocess.STDOUT)
-                try:
-                    rc = pr.wait(timeout=run["timeout"] + 120)
-                except subprocess.TimeoutExpired:
-                    pr.kill()
-                    rc = -9
-                log.close()
-                out = open(log.name).read()
+                for attempt in (1, 2):
+                    log = open(os.path.join(work, "run%d-fuzz.log" % runix), "w")
+                    pr = subprocess.Popen(cmd, cwd=os.path.join(HARNESS, cfg["pkg"]), env=e, stdout=log, stderr=subprocess.STDOUT)
+                    try:
+                        rc = pr.wait(timeout=run["timeout"] + 120)
+                    except subprocess.TimeoutExpired:
+                        pr.kill()
+                        rc = -9
+                    log.close()
+                    out = open(log.name).read()
+                    # a worker process that goes away between two inputs (no input to blame, nothing saved) is an
+                    # infrastructure event: keep the log for triage and run the campaign once more
+                    if rc != 0 and "terminated without fuzzing" in out and "VIOLATION-CANDIDATE" not in out and attempt == 1:
+                        shutil.copy(log.name, os.path.join(ROOT, "replays", "%s-fuzz-%s-worker-lost.log" % (pid, run["fuzz"])))
+                        notes.append("fuzz %s: a worker went away between inputs, campaign repeated" % run["fuzz"])
+                        continue
+                    break
                 m = re.findall(r"execs: (\d+)", out)
                 notes.append("fuzz %s: %s execs in %ds" % (run["fuzz"], m[-1] if m else "?", run["fuzztime"]))
                 if rc != 0:
